@@ -80,7 +80,7 @@ end Pdt.Spec
 
 namespace Pdt.Spec
 
-theorem get_append_left' (r s : Row) (u : Uid) (h : (r.find? (·.1 == u)).isSome = true) : Row.get (r ++ s) u = Row.get r u := by
+theorem get_append_left2 (r s : Row) (u : Uid) (h : (r.find? (·.1 == u)).isSome = true) : Row.get (r ++ s) u = Row.get r u := by
   unfold Row.get
   rw [List.find?_append]
   cases hf : r.find? (·.1 == u) with
@@ -92,7 +92,7 @@ mutual
     columns the row already holds -/
 theorem evalRow_append (r s : Row) : ∀ (e : Expr), (∀ u ∈ e.uids, (r.find? (·.1 == u)).isSome = true) →
     evalRow (r ++ s) e = evalRow r e
-  | .col u _ _, h => by simp only [evalRow]; exact get_append_left' r s u (h u (by simp [Expr.uids]))
+  | .col u _ _, h => by simp only [evalRow]; exact get_append_left2 r s u (h u (by simp [Expr.uids]))
   | .lit _ _, _ => by simp [evalRow]
   | .cast e _, h => by
       simp only [evalRow]
